@@ -257,7 +257,7 @@ def procCC (s : Sys) (name : String) (w : WOut) : Sys × Obs :=
   if r.2.res == "err" then ({ r.1 with ccQ := qAdd r.1.ccQ name }, r.2) else r
 
 /-- construction: bootstrap every listed ClusterCIDR (in name order, as the API lists them),
-occupy the service ranges, occupy the pod CIDRs of every listed node -/
+occupy the service ranges, occupy the pod CIDRs of every listed node that is not being deleted -/
 def bootCCs (s : Sys) : List CCObj → List WOut → List (String × List String × String) → Sys × List (String × List String × String)
   | [], _, acc => (s, acc)
   | o :: rest, ws, acc =>
@@ -268,7 +268,7 @@ def bootCCs (s : Sys) : List CCObj → List WOut → List (String × List String
 
 def bootNodes (al : Alloc) : List NodeObj → Alloc
   | [] => al
-  | n :: rest => if !n.hasCidrs then bootNodes al rest else bootNodes (occupyCIDRs al n).1 rest
+  | n :: rest => if !n.hasCidrs || n.deleting then bootNodes al rest else bootNodes (occupyCIDRs al n).1 rest
 
 def sortCCObjs (l : List CCObj) : List CCObj :=
   (sortNames (l.map (·.name))).filterMap (fun n => getCC l n)
@@ -303,6 +303,10 @@ inductive Ev where
   | procCC (name : String) (w : WOut)
 deriving Repr, DecidableEq, Inhabited
 
+/-- resource versions are never re-used (they are revisions of the store): a new ClusterCIDR object is newer than
+every object the API or the controller's cache holds -/
+def freshRv (s : Sys) : Nat := ((s.api.ccs ++ s.ccView).map (·.rv)).foldl max 0 + 1
+
 def step (s : Sys) : Ev → Sys × Obs
   | .boot svcs ws => boot s svcs ws
   | .nodeAdd n =>
@@ -322,7 +326,7 @@ def step (s : Sys) : Ev → Sys × Obs
     | some n => ({ s with api := { s.api with nodes := putNode s.api.nodes { n with deleting := true } } }, {})
   | .ccAdd name spec =>
     if (getCC s.api.ccs name).isSome then (s, {}) else
-    ({ s with api := { s.api with ccs := s.api.ccs ++ [⟨name, spec, [], false, 1, 1⟩] } }, {})
+    ({ s with api := { s.api with ccs := s.api.ccs ++ [⟨name, spec, [], false, 1, freshRv s⟩] } }, {})
   | .ccDel name =>
     match getCC s.api.ccs name with
     | none => (s, {})
